@@ -108,6 +108,14 @@ fn check_cut(input: &[u8], obs: &mut Obs) -> Result<Option<Out>, Fail> {
         return Ok(None);
     }
     let (ct, v, ep, seq, l) = ref_header(input);
+    // the header parser on its own decodes the 13 bytes verbatim, whatever the length says (the cap belongs to the record parsers)
+    match guard("parse_dtls_record_header", || parse_dtls_record_header(input).map(|(rem, h)| (rem.len(), (h.content_type.0, h.version.0, h.epoch, h.sequence_number, h.length))).map_err(|e| e.map(|x| x.code)))? {
+        Ok((rl, h)) => {
+            ensure!(h == (ct, v, ep, seq, l as u16), "C10:frame:header-parser:fields", "parse_dtls_record_header decoded (type, version, epoch, sequence, length) = {:?}, the wire has {:?}", h, (ct, v, ep, seq, l));
+            ensure!(rl == pl - 13, "C10:frame:header-parser:remainder", "parse_dtls_record_header left {} of {} bytes", rl, pl - 13);
+        }
+        Err(e) => return fail("C10:frame:header-parser:rejected", format!("parse_dtls_record_header rejected a complete 13-byte header (type {:#04x}, length {}): {:?}", ct, l, e)),
+    }
     if l > CAP {
         ensure!(matches!(out, Out::Error(ErrorKind::TooLarge)), "C10:frame:cap-not-enforced", "declared length {} > 2^14+256 must be rejected with TooLarge, got {}", l, describe(&out));
         return Ok(None);
